@@ -824,6 +824,16 @@ class Evaluator:
         if sink:
             raise Unsupported("diverging operand of && / ||", e.get("sp"))
 
+    def ev_index(self, e, st, depth, body):
+        sink = []
+        for (g, ts, env) in self.product([e["e"], e["i"]], st, depth, body, sink):
+            base, idx = ts
+            if base[0] == "array" and idx[0] == "num" and idx[1].denominator == 1 and 0 <= idx[1] < len(base[1]):
+                yield (g, "val", base[1][int(idx[1])], env)
+            else:
+                yield (g, "val", ("index", base, idx), env)      # (bounds are C18's business; the model interpreter panics on a miss)
+        yield from sink
+
     def ev_field(self, e, st, depth, body):
         for (g, kind, t, env) in self.ev(e["e"], st, depth, body):
             if kind != "val":
@@ -967,7 +977,7 @@ class Evaluator:
                 x = x["e"] if x["k"] == "coerce" else x["expr"]
             if x["k"] == "ref" and x.get("mut"):
                 tgt = x["e"]
-                while tgt["k"] in ("deref", "field"):
+                while tgt["k"] in ("deref", "field", "ref"):      # (`&mut *(&mut v)` is the reborrow rustc inserts)
                     tgt = tgt["e"]
                 if tgt["k"] in ("var", "upvar"):
                     # a named place stays observable after the call
@@ -1174,6 +1184,27 @@ class Evaluator:
         if val is None and path in ("core::hint::must_use", "core::option::Option::<&T>::copied", "core::option::Option::<&T>::cloned",
                                     "core::option::Option::<&mut T>::copied", "core::option::Option::<&mut T>::cloned"):
             val = args[0]
+        # --- the `?` operator on Option (std contract of Try / FromResidual for Option) ----------------------
+        CF = "core::ops::control_flow::ControlFlow"
+        if val is None and tr == "core::ops::try_trait::Try" and name == "branch" and len(args) == 1 and self_ty is not None \
+                and strip_ref(self_ty).startswith("core::option::Option"):
+            o = args[0]
+            if o[0] == "some":
+                yield (g, "val", ("adt", CF, "Continue", (("0", o[1]),)), env)
+                return
+            if o[0] == "none":
+                yield (g, "val", ("adt", CF, "Break", (("0", ("none",)),)), env)
+                return
+            some = ("isvar", o, "Some")
+            gs, gn = gadd(g, some, True), gadd(g, some, False)
+            if gs is not None:
+                yield (gs, "val", ("adt", CF, "Continue", (("0", ("unwrap", o)),)), env)
+            if gn is not None:
+                yield (gn, "val", ("adt", CF, "Break", (("0", ("none",)),)), env)
+            return
+        if val is None and tr == "core::ops::try_trait::FromResidual" and name == "from_residual" and len(args) == 1 and args[0] == ("none",) \
+                and self_ty is not None and strip_ref(self_ty).startswith("core::option::Option"):
+            val = ("none",)
         if val is None and tr in ("core::clone::Clone",) and name == "clone":
             val = args[0]
         if val is None and tr == "core::ops::deref::Deref" and name == "deref":
